@@ -6,6 +6,7 @@ package checks
 import (
 	"encoding/json"
 	"fmt"
+	"io"
 	"runtime"
 	"strings"
 	"time"
@@ -24,6 +25,32 @@ type isoReq struct {
 	Src    string            `json:"src"`
 	Delims jetrun.Delims     `json:"delims"`
 	Files  map[string]string `json:"files,omitempty"`
+	// OpenFails: the loader says this path exists, but opening it fails (unreadable file, a delete racing with the lookup)
+	OpenFails string `json:"open_fails,omitempty"`
+}
+
+type openFailLoader struct {
+	jet.Loader
+	path string
+}
+
+func (l *openFailLoader) Open(p string) (io.ReadCloser, error) {
+	if p == l.path {
+		return nil, fmt.Errorf("open %s: permission denied (injected)", p)
+	}
+	return l.Loader.Open(p)
+}
+
+func isoSet(files map[string]string, req isoReq) *jet.Set {
+	if req.OpenFails == "" {
+		s, _ := jetrun.NewSet(files, req.Delims.Options()...)
+		return s
+	}
+	m := jet.NewInMemLoader()
+	for k, v := range files {
+		m.Set(k, v)
+	}
+	return jet.NewSet(&openFailLoader{Loader: m, path: req.OpenFails}, req.Delims.Options()...)
 }
 
 type isoResp struct {
@@ -92,7 +119,7 @@ func handleIso(req isoReq) (resp isoResp) {
 		switch req.Op {
 		case "get":
 			files[req.Name] = req.Src
-			s, _ := jetrun.NewSet(files, req.Delims.Options()...)
+			s := isoSet(files, req)
 			t, err = s.GetTemplate(req.Name)
 			// asked again on the same Set the answer must be the same kind of answer: a failure is never
 			// remembered as a success (a half-built template served from the cache)
@@ -103,7 +130,7 @@ func handleIso(req isoReq) (resp isoResp) {
 				resp.Second = "second GetTemplate returned an unusable template"
 			}
 		default:
-			s, _ := jetrun.NewSet(files, req.Delims.Options()...)
+			s := isoSet(files, req)
 			t, err = s.Parse(req.Name, req.Src)
 		}
 		if err != nil {
